@@ -12,8 +12,13 @@ def _call(packed):
     return fn(args)
 
 
+STOP_AFTER_VIOLATED = 40
+
+
 def run_jobs(jobs, procs=None, progress=None):
-    """jobs: list of (function, args).  Returns list of results (unordered)."""
+    """jobs: list of (function, args).  Returns list of results (unordered).
+    Once STOP_AFTER_VIOLATED jobs have come back 'violated' the remaining jobs are abandoned (the run is going to
+    report violations anyway; on a broken tree the undecided fallbacks would otherwise take hours)."""
     procs = procs or C.NCPU
     if not jobs:
         return []
@@ -26,9 +31,16 @@ def run_jobs(jobs, procs=None, progress=None):
     ctx = mp.get_context("fork")
     with ctx.Pool(min(procs, len(jobs))) as pool:
         n = 0
+        nviol = 0
         for r in pool.imap_unordered(_call, jobs, chunksize=1):
             out.append(r)
             n += 1
+            if isinstance(r, dict) and r.get("status") == "violated":
+                nviol += 1
+                if nviol >= STOP_AFTER_VIOLATED:
+                    pool.terminate()
+                    sys.stderr.write("  [%d violated obligations: abandoning the remaining %d jobs]\n" % (nviol, len(jobs) - n))
+                    break
             if progress and (n % progress == 0):
                 sys.stderr.write("  [%d/%d jobs, %.0fs]\n" % (n, len(jobs), time.time() - t0))
                 sys.stderr.flush()
